@@ -348,6 +348,7 @@ Proof.
   - eapply driver_route; eauto.
   - destruct H as (V & S & B & R & _ & _ & _ & _ & _ & _ & _ & _ & Dt & _). eapply Inv_route_ext; eauto. apply rframe_same. exact R.
   - destruct I as (D & SK & BK & Iv). split; [exact D|]. split; [exact SK|]. split; [exact BK|]. exact Iv.
+  - destruct (transition_vonly env _ _ _ _ _ H2 K) as [K1 _]. eapply (perform_route s1); [eapply transition_route; eauto using default_terminal_sourced|exact K1|unfold vstate_of; rewrite H3; reflexivity|eauto].
 Qed.
 
 (* C07, second sentence, over every finite history, any controller *)
